@@ -82,6 +82,52 @@ fn check_context(z: &MZerv, cx: &mut Cx) -> Res {
     Ok(())
 }
 
+
+/// the same agreement at the end of a whole `zerv version` run: overrides, bumps and schema-section
+/// operations happen first, then the template context is built
+fn check_after_flags(c: &crate::props::c01::Case, cx: &mut Cx) -> Res {
+    let mut base = crate::props::c01::argv(c);
+    base.retain(|x| !x.starts_with("--output-format") && !x.starts_with("--output-prefix"));
+    let stdin = c.stdin.as_ref().and_then(|z| z.to_zerv().ok()).map(|z| z.to_string());
+    let run = |extra: &[String]| {
+        let mut a = base.clone();
+        a.extend(extra.iter().cloned());
+        cli::version(&a, stdin.as_deref())
+    };
+    let obj = match run(&["--output-format=zerv".to_string()]) {
+        cli::Run::Ok(o) => o,
+        cli::Run::Panic(p) => return fail(format!("version panicked on {base:?}: {p}")),
+        _ => return Ok(()), // rejected flag combination
+    };
+    let z = <zerv::version::Zerv as std::str::FromStr>::from_str(&obj).map_err(|e| Bad::Fail(format!("emitted object does not parse: {e}")))?;
+    if z.vars.dirty == Some(true) {
+        return Ok(()); // wall-clock timestamp: separate runs are not comparable
+    }
+    let (semver, pep440) = match (run(&["--output-format=semver".to_string()]), run(&["--output-format=pep440".to_string()])) {
+        (cli::Run::Ok(a), cli::Run::Ok(b)) => (a, b),
+        (a, b) => return fail(format!("zerv output succeeds but semver/pep440 output fails for {base:?}: {} / {}", a.describe(), b.describe())),
+    };
+    let schema_ops = c.flags.iter().any(|f| matches!(f.name.as_str(), "core" | "extra-core" | "build" | "bump-core" | "bump-extra-core" | "bump-build"));
+    cx.nt_if(!c.flags.is_empty());
+    cx.label_if(schema_ops, "schema-section-override-or-bump");
+    cx.label_if(c.stdin.is_some(), "stdin-source");
+    let tpl = "{{ semver }}\u{1}{{ pep440 }}\u{1}{{ semver_obj.base_part }}{% if semver_obj.pre_release_part %}-{{ semver_obj.pre_release_part }}{% endif %}{% if semver_obj.build_part %}+{{ semver_obj.build_part }}{% endif %}\u{1}{{ pep440_obj.base_part }}{% if pep440_obj.pre_release_part %}{{ pep440_obj.pre_release_part }}{% endif %}{% if pep440_obj.build_part %}+{{ pep440_obj.build_part }}{% endif %}\u{1}{{ semver_obj.docker }}\u{1}{{ major }}.{{ minor }}.{{ patch }}.{{ epoch }}.{{ post }}.{{ dev }}.{{ distance }}";
+    let got = unwrap_sentinels(run(&[format!("--output-template=<<{tpl}>>")]), tpl)?;
+    let p: Vec<&str> = got.split('\u{1}').collect();
+    ensure!(p.len() == 6, "unexpected probe result {got:?}");
+    cx.note(|| format!("{base:?} -> {semver} | {pep440}"));
+    ensure!(p[0] == semver, "{{{{ semver }}}} = {:?} but --output-format semver prints {semver:?} for {base:?}", p[0]);
+    ensure!(p[1] == pep440, "{{{{ pep440 }}}} = {:?} but --output-format pep440 prints {pep440:?} for {base:?}", p[1]);
+    ensure!(p[2] == semver, "semver_obj parts recompose to {:?}, --output-format semver prints {semver:?} for {base:?}", p[2]);
+    ensure!(p[3] == pep440, "pep440_obj parts recompose to {:?}, --output-format pep440 prints {pep440:?} for {base:?}", p[3]);
+    ensure!(p[4] == semver.replace('+', "-"), "semver_obj.docker = {:?}, expected {:?}", p[4], semver.replace('+', "-"));
+    let n = |o: &Option<u64>| o.map(|x| x.to_string()).unwrap_or_default();
+    let v = &z.vars;
+    let want = format!("{}.{}.{}.{}.{}.{}.{}", n(&v.major), n(&v.minor), n(&v.patch), n(&v.epoch), n(&v.post), n(&v.dev), n(&v.distance));
+    ensure!(p[5] == want, "scalar variables {:?} differ from the emitted object's {want:?} for {base:?}", p[5]);
+    Ok(())
+}
+
 #[derive(Debug, Clone, Hash, Serialize, Deserialize)]
 pub enum Fun {
     Hash { length: Option<u64> },
@@ -264,15 +310,16 @@ pub fn property() -> Property {
         check_fun,
     )
     .floor(0.5);
+    let after = RandomSub::<crate::props::c01::Case>::new("context-after-flags", (16_000, 300_000), |_| crate::props::c01::case_strategy(), check_after_flags).floor(0.2);
     Property {
         id: "C15",
-        rule: "cases = (a) Zerv objects (arbitrary valid schemas x vars, clock-free) probed with templates for semver / pep440 / the *_obj parts / docker / every scalar variable, each probe between ASCII sentinels; (b) function calls hash, hash_int, prefix, prefix_if, sanitize (presets and knobs), format_timestamp (22 strftime specifiers in random combinations, the two compact names, default, and invalid specifiers) with the value travelling as a variable (arbitrary Unicode text). Oracle: equality with --output-format output for the same stdin object (differential), recomposition identities, the input variables, reference models (oracle::sanitize, oracle::calendar) and the stated length/digit contracts; invalid format strings must give an error, not a panic. Non-trivial = object whose SemVer rendering has a pre-release or build part (a); every function case (b); distinct = distinct cases.",
+        rule: "cases = (a) Zerv objects (arbitrary valid schemas x vars, clock-free) probed with templates for semver / pep440 / the *_obj parts / docker / every scalar variable, each probe between ASCII sentinels; (a') whole `zerv version` runs (source none / stdin, presets and custom schemas, overrides, bumps, schema-section overrides and bumps): semver / pep440 / recomposed parts / docker / scalars printed by a template against --output-format semver / pep440 / zerv of the same command line; (b) function calls hash, hash_int, prefix, prefix_if, sanitize (presets and knobs), format_timestamp (22 strftime specifiers in random combinations, the two compact names, default, and invalid specifiers) with the value travelling as a variable (arbitrary Unicode text). Oracle: equality with --output-format output for the same stdin object (differential), recomposition identities, the input variables, reference models (oracle::sanitize, oracle::calendar) and the stated length/digit contracts; invalid format strings must give an error, not a panic. Non-trivial = object whose SemVer rendering has a pre-release or build part (a); every function case (b); distinct = distinct cases.",
         assumptions: vec![
             "objects are clock-free (dirty is not true), so separate runs are comparable",
             "unset variables render as the empty string (Tera prints null as empty)",
             "last_branch is not part of the documented template context",
         ],
-        subs: vec![ctx.boxed(), funs.boxed()],
+        subs: vec![ctx.boxed(), after.boxed(), funs.boxed()],
         known_repro: vec![],
     }
 }
